@@ -6,16 +6,18 @@
      option : flag v            (flag 0 = None)
      op     : code a b inc      (0 OList, 1 OTake a, 2 OGet a, 3 OCount, 4 OContains a,
                                  5 OBetween a b inc, 6 OBefore a inc, 7 OAfter a inc)
-     outcome: Ret l -> 1 n l.. ; Raise e -> 2 e   (e: 1 IndexError, 2 TypeError)
+     outcome: Ret l -> 1 n l.. ; Raise e -> 2 e   (e: 1 IndexError, 2 TypeError, 3 ValueError)
      qres   : QVal v -> 0 v ; QNone -> 1 ; QList l -> 2 l.. ; QBool b -> 3 b ; QIndexError -> 4 ;
               QValueError -> 5
    Entries:
-     10  fixed seq m ops.. hist..      single-threaded history; hist = pairs (kind, tid):
+     (flags = fixed + 2*raises: 1 = the code after bb46216 with a generator that ends normally,
+              3 = same code, generator that raises ValueError after seq)
+     10  flags seq m ops.. hist..      single-threaded history; hist = pairs (kind, tid):
                                        0 create (one step: the __iter__/query entry test), 1 next(), 2 run to completion
-     11  fixed seq m ops.. sched..     thread schedule -> per entry 10 ints
+     11  flags seq m ops.. sched..     thread schedule -> per entry 10 ints
                                        (enabled pc_before |cache| complete gen_alive owner+1 len+1 i |out| pc_after)
                                        then -1 all_done stuck, then per thread: pc outcome-or-0
-     12  seq op                        spec_result
+     12  seq op                        spec_result ; 13 seq op  spec_result_raising
      20..33                            C12 model (even) / spec (odd), see dispatch
      34  l a b c (options)             py_slice ; 35 islice ; 36 l k py_index *)
 Require Extraction.
@@ -73,7 +75,7 @@ Fixpoint dec_ops (m : nat) (l : list Z) : option (list op * list Z) :=
            end
   end.
 
-Definition enc_exn (e : exn) : Z := match e with EIndexError => 1 | ETypeError => 2 end.
+Definition enc_exn (e : exn) : Z := match e with EIndexError => 1 | ETypeError => 2 | EValueError => 3 end.
 Definition enc_outcome (o : outcome) : list Z :=
   match o with
   | Ret l => 1 :: n2z (length l) :: l
@@ -96,40 +98,45 @@ Definition pc_code (p : pc) : Z :=
   | PInit => 1 | PGetGen => 2 | PGetCache => 3 | PGetAcq => 4 | PGetRel => 5 | PWhile => 6
   | PIfLen => 7 | PAcquire => 8 | PTryO => 9 | PTestC => 10 | PBreakC => 11 | PTryI => 12
   | PFor _ => 13 | PAdvance _ => 14 | PGenPub _ => 14 | PExcept => 15 | PSetGen => 16
-  | PSetC => 17 | PBreakE => 18 | PRelease _ => 20 | PYield => 21 | PIncr => 22
+  | PSetC => 17 | PBreakE => 18 | PRelease _ => 20 | PExcX => 15 | PRelX => 20 | PYield => 21 | PIncr => 22
   | PTWhile => 23 | PTYield => 24 | PTIncr => 25
   end.
 
 (* ---------------------------------------------------------------- single-threaded histories *)
 
-Definition fuel_next : nat := 200.
-Definition fuel_done : nat := 100000.
+(* RCacheThm.history_drivers_total: this fuel is never exhausted (fixed code, generator ends normally) *)
+Definition fuel_for (seq : list Z) : nat := 64 * (length seq + 1) + 80.
 
 Definition delivered (dl : list nat) (t : nat) : nat := nth t dl O.
 
-Fixpoint hist_run (seq : list Z) (fixed : bool) (h : list Z) (s : state) (dl : list nat) : list Z :=
+(* dl = values already delivered per iterator; rz = iterator whose exception was already delivered
+   (a Python generator that raised is finished: a later next() is StopIteration) *)
+Fixpoint hist_run (seq : list Z) (fixed raises : bool) (h : list Z) (s : state) (dl : list nat)
+                  (rz : list bool) : list Z :=
   match h with
   | k :: t :: r =>
       let tn := Z.to_nat t in
       if k =? 0 then
-        match step seq fixed s tn with
-        | Some s' => 9 :: hist_run seq fixed r s' dl
+        match step seq fixed raises s tn with
+        | Some s' => 9 :: hist_run seq fixed raises r s' dl rz
         | None => [8]
         end
       else if k =? 1 then
-        match run_next seq fixed fuel_next s tn (delivered dl tn) with
-        | NValue v s' => 1 :: v :: hist_run seq fixed r s' (upd dl tn (S (delivered dl tn)))
-        | NStop s' => 0 :: hist_run seq fixed r s' dl
-        | NRaise e s' => 2 :: enc_exn e :: hist_run seq fixed r s' dl
+        match run_next seq fixed raises (fuel_for seq) s tn (delivered dl tn) with
+        | NValue v s' => 1 :: v :: hist_run seq fixed raises r s' (upd dl tn (S (delivered dl tn))) rz
+        | NStop s' => 0 :: hist_run seq fixed raises r s' dl rz
+        | NRaise e s' =>
+            if nth tn rz false then 0 :: hist_run seq fixed raises r s' dl rz
+            else 2 :: enc_exn e :: hist_run seq fixed raises r s' dl (upd rz tn true)
         | NDeadlock => [3]
         | NFuel => [4]
         end
       else
-        match run_done seq fixed fuel_done s tn with
+        match run_done seq fixed raises (fuel_for seq) s tn with
         | Some (Some s') =>
             match nth_error (thr s') tn with
             | Some th => match t_res th with
-                         | Some o => 5 :: enc_outcome o ++ hist_run seq fixed r s' dl
+                         | Some o => 5 :: enc_outcome o ++ hist_run seq fixed raises r s' dl rz
                          | None => [7]
                          end
             | None => [7]
@@ -143,12 +150,12 @@ Fixpoint hist_run (seq : list Z) (fixed : bool) (h : list Z) (s : state) (dl : l
 (* ---------------------------------------------------------------- thread schedules *)
 
 (* one granted line; the generator-internal point PGenPub is not a line of _iter_cached *)
-Definition vstep (seq : list Z) (fixed : bool) (s : state) (t : nat) : option state :=
-  match step seq fixed s t with
+Definition vstep (seq : list Z) (fixed raises : bool) (s : state) (t : nat) : option state :=
+  match step seq fixed raises s t with
   | None => None
   | Some s' =>
       match pc_of s' t with
-      | Some (PGenPub _) => step seq fixed s' t
+      | Some (PGenPub _) => step seq fixed raises s' t
       | _ => Some s'
       end
   end.
@@ -163,34 +170,34 @@ Definition snap (s : state) (t : nat) : list Z :=
   | None => [ -1; -1; -1 ]
   end.
 
-Definition enc_final (seq : list Z) (fixed : bool) (s : state) : list Z :=
-  [-1; b2z (all_done s); b2z (stuck seq fixed s)] ++
+Definition enc_final (seq : list Z) (fixed raises : bool) (s : state) : list Z :=
+  [-1; b2z (all_done s); b2z (stuck seq fixed raises s)] ++
   flat_map (fun th => pc_code (t_pc th) ::
                       match t_res th with Some o => enc_outcome o | None => [0] end) (thr s).
 
-Fixpoint trace_run (seq : list Z) (fixed : bool) (sched : list Z) (s : state) : list Z :=
+Fixpoint trace_run (seq : list Z) (fixed raises : bool) (sched : list Z) (s : state) : list Z :=
   match sched with
-  | [] => enc_final seq fixed s
+  | [] => enc_final seq fixed raises s
   | t :: r =>
       let tn := Z.to_nat t in
       match nth_error (thr s) tn with
       | None => [-2]
       | Some th =>
-          match vstep seq fixed s tn with
-          | None => 0 :: pc_code (t_pc th) :: snap s tn ++ trace_run seq fixed r s
-          | Some s' => 1 :: pc_code (t_pc th) :: snap s' tn ++ trace_run seq fixed r s'
+          match vstep seq fixed raises s tn with
+          | None => 0 :: pc_code (t_pc th) :: snap s tn ++ trace_run seq fixed raises r s
+          | Some s' => 1 :: pc_code (t_pc th) :: snap s' tn ++ trace_run seq fixed raises r s'
           end
       end
   end.
 
-Definition with_prog (args : list Z) (k : bool -> list Z -> list op -> list Z -> list Z) : list Z :=
+Definition with_prog (args : list Z) (k : bool -> bool -> list Z -> list op -> list Z -> list Z) : list Z :=
   match args with
   | fx :: r =>
       match take_list r with
       | Some (sq, m :: r2) =>
           if m <? 0 then [-1]
           else match dec_ops (Z.to_nat m) r2 with
-               | Some (ops, rest) => k (z2b fx) sq ops rest
+               | Some (ops, rest) => k (Z.odd fx) (2 <=? fx) sq ops rest
                | None => [-1]
                end
       | _ => [-1]
@@ -218,9 +225,14 @@ Definition with_list (args : list Z) (k : bool -> list Z -> list Z -> list Z) : 
 
 Definition dispatch (n : Z) (args : list Z) : list Z :=
   match n with
-  | 10 => with_prog args (fun fx sq ops rest =>
-            hist_run sq fx rest (init ops) (map (fun _ => O) ops))
-  | 11 => with_prog args (fun fx sq ops rest => trace_run sq fx rest (init ops))
+  | 10 => with_prog args (fun fx rz sq ops rest =>
+            hist_run sq fx rz rest (init ops) (map (fun _ => O) ops) (map (fun _ => false) ops))
+  | 11 => with_prog args (fun fx rz sq ops rest => trace_run sq fx rz rest (init ops))
+  | 13 => match take_list args with
+          | Some (sq, [c; a; b; i]) =>
+              match dec_op c a b i with Some o => enc_outcome (spec_result_raising o sq) | None => [-1] end
+          | _ => [-1]
+          end
   | 12 => match take_list args with
           | Some (sq, [c; a; b; i]) =>
               match dec_op c a b i with Some o => enc_outcome (spec_result o sq) | None => [-1] end
